@@ -84,7 +84,7 @@ def run(R, tier, seed, driver_ok):
                 R.violation('Covariance/penrose', f'Covariance: M is not the pseudo-inverse of the sample covariance (Penrose residuals {res})', case)
             lines.append(f'cov {n} {d} {bits(Xc)}'); meta.append(('mat', C, 1e-12 * sC, 'cov', case))
         # ---------------- RCA
-        sizes = rng.randint(2, 6, size=int(rng.randint(d + 1, d + 5)))
+        sizes = rng.choice([1, 2, 2, 3, 4, 5], size=int(rng.randint(d + 2, d + 7)))     # one-point chunklets included
         chunks = -np.ones(n, dtype=int)
         pool = rng.permutation(n); pos = 0; cid = 0
         for s in sizes:
